@@ -216,7 +216,7 @@ func init() {
 		Explanation: "Decides the preconditions and wiring SubMerge relies on: (a) resolution ≥ source and resolution/stride multiples of the source resolution are validated (errors) before a group-by is planned; (b) same-typed arguments out/in (resolutions, expression lists) are never swapped between group.Iterate, bytetree.New, the Tree's fields and Sequence.SubMerge; (c) group keys are built from name-sorted GroupBy lists at both construction sites. Added clauses: purity; every needsGroupBy disjunct (also inside a private bool helper) forces the group-by; = C11.b and = C13.a for the cluster and error paths of re-aggregation. Further clauses: aggregate.Merge merges only set operands (= C05.d); the select clause's field lookup map is rebuilt on every resolution.",
 		NotDecided:  []string{"the bucket arithmetic floor((po+untilOffset)/scale)", "anchoring at the moving 'now'", "values of re-computed ratios"},
 		Assumptions: []string{"role names out*/in*, resolution/otherResolution, ex/otherEx are used consistently in bytetree and encoding"},
-		Rules: []func(*Ctx){func(c *Ctx) { ruleC05d(c, "C06.h") }, func(c *Ctx) { ruleC06i(c, "C06.i") }, func(c *Ctx) { ruleC06a(c, "C06.a") }, func(c *Ctx) { ruleC06b(c, "C06.b") }, func(c *Ctx) { ruleC06c(c, "C06.c") }, func(c *Ctx) { rulePurity(c, "C06.d") }, func(c *Ctx) { ruleC06e(c, "C06.e") }, func(c *Ctx) { ruleC11b(c, "C06.f") }, func(c *Ctx) {
+		Rules: []func(*Ctx){func(c *Ctx) { ruleC05d(c, "C06.h") }, func(c *Ctx) { ruleC06i(c, "C06.i") }, func(c *Ctx) { ruleC05i(c, "C06.j") }, func(c *Ctx) { ruleC06a(c, "C06.a") }, func(c *Ctx) { ruleC06b(c, "C06.b") }, func(c *Ctx) { ruleC06c(c, "C06.c") }, func(c *Ctx) { rulePurity(c, "C06.d") }, func(c *Ctx) { ruleC06e(c, "C06.e") }, func(c *Ctx) { ruleC11b(c, "C06.f") }, func(c *Ctx) {
 			// a coarse row built from a partial scan is not the aggregate of "exactly the points whose key projects onto it"
 			saved := c.ruleDesc
 			ruleC13aAs(c, "C06.g")
